@@ -117,6 +117,8 @@ def jobs(workdir, algs=None, repo=REPO):
                             expect_classes=["postcondition", "precondition"])),
         ]
         for name, kw in J:
-            js.append(Job("ctxbase/%s/%s" % (alg, name), [dst], includes=inc, defines=defs, timeout=1800, solvers=["cadical"], mem_gb=16,
-                          meta=dict(meta, cost=100, role=name), **kw))
+            if alg == "sha512" and name == "update":
+                # run-time-length libc memcpy into the 128-byte partial buffer: cadical needs > 16 GB
+                kw = dict(kw, solvers=["minisat"], split=True)
+            js.append(Job("ctxbase/%s/%s" % (alg, name), [dst], includes=inc, defines=defs, meta=dict(meta, cost=100, role=name), **dict(dict(timeout=1800, solvers=["cadical"], mem_gb=16), **kw)))
     return js
